@@ -24,6 +24,10 @@ CLAIMS = {
   text="Group independence decided as structure: node-level stateful expressions are used only through CopyReset() (violated by AlertNode: known finding F13), CopyReset hands out fresh function state, the grouped consumer keeps exactly one receiver per looked-up id and dispatches each message to its own group's receiver, the group id covers name-iff-by-name and every dimension's name and value and must be injective (violated: known finding F14), Dimensions.Equal compares every field, node-level caches are guarded by their key, NewGroup returns fresh receivers.",
   ref="§3 C06", technique="type-directed use-site confinement of expression fields, path-sensitive guard/effect tables, field-completeness of the comparator guarding a cache, key-injectivity lint",
   note="Trusted: go/types. Not decided: the two-run relation itself (same output with/without other groups), computeTagNames, write confinement of arbitrary stores through the back-pointer to the node."),
+ "C02": dict(
+  text="Routing decided as structure on every path: key roles agree between registration and lookup, the registration is the full dbrp×measurement product over every from() node, every fan-out Collect is on an edge found under a declared key, with the point itself, in loops never left early, a task under both keys is served once, unsubscribe removes only the task's own entries and closes its edge once, the tables are touched under tm.mu only, FromNode.matches and the ingestion entry points equal their reference tables.",
+  ref="§3 C02", technique="writer/reader key-role agreement, AST loop-shape rules following same-package helpers, path-sensitive guard/effect tables, syntactic guarded-by (lock held or required-by-helper at every call site)",
+  note="Trusted: edge channels are FIFO; pipeline.Walk visits all nodes. Not decided: order under concurrent writers, loss/duplication across start/stop interleavings (schedule quantifier), lock discipline beyond 'a Lock/RLock precedes the access in the function'."),
 }
 
 _pending = "check not built yet in this round (see DESIGN.md §3 for the planned structural rules); will move to `checks` once armed and exact on the tree"
